@@ -273,6 +273,13 @@ type InjInput struct {
 	Note   string `json:"note"`
 	Insert bool   `json:"insert"`          // insert before packet At instead of replacing it
 	BigN   int    `json:"big_n,omitempty"` // > 0: the history is the big-transaction scale history of BigN rows events
+	// Raw: Bytes is the whole packet (no event marker in front): an ERR packet of
+	// unusual shape; the reader finds it, its failure is what Error() reports
+	Raw bool `json:"raw,omitempty"`
+	// Accepted: a buffer the validity gate accepts (a complete header whose
+	// length field matches, and nothing or too little behind it): whatever the
+	// streamer makes of it, it must not panic and must not deliver a partial transaction
+	Accepted bool `json:"accepted,omitempty"`
 }
 
 var bigInjHist = map[int]*ref.History{}
@@ -311,7 +318,7 @@ func checkInjection(in InjInput) string {
 	if in.Insert {
 		kind = "inject"
 	}
-	plan := simmaster.Plan{At: in.At, Kind: kind, Inject: in.Bytes, Final: "eof"}
+	plan := simmaster.Plan{At: in.At, Kind: kind, Inject: in.Bytes, Raw: in.Raw, Final: "eof"}
 	out := Run(h, Opts{Start: start, ServerID: 3, LockStep: false, Plans: []simmaster.Plan{plan}, Attempts: 2})
 	if out.Hung {
 		return "HUNG"
@@ -319,7 +326,15 @@ func checkInjection(in InjInput) string {
 	if out.StreamPanic[0] != "" {
 		return "panic in Stream: " + firstLine(out.StreamPanic[0])
 	}
-	if out.StreamErr[0] == nil {
+	if in.Accepted {
+		// no claim about what an accepted header-only buffer means: no panic (above
+		// and in the second attempt), nothing partial
+		if len(out.StreamPanic) > 1 && out.StreamPanic[1] != "" {
+			return "panic in the second attempt: " + firstLine(out.StreamPanic[1])
+		}
+		return ""
+	}
+	if out.StreamErr[0] == nil && !(in.Raw && len(out.Err1) > 0 && out.Err1[0] != nil) {
 		return fmt.Sprintf("a malformed packet (%s) at index %d did not end the stream with an error", in.Note, in.At)
 	}
 	var before []ref.ExpTx
@@ -409,6 +424,33 @@ func RunInjection(r *chk.Run) {
 			inputs = append(inputs, InjInput{At: i, Bytes: g, Note: fmt.Sprintf("garbage of %d bytes", len(g)), Insert: true})
 		}
 	}
+	// ERR packets of unusual shape in place of an event, and buffers the gate
+	// accepts although nothing (or too little) follows the header
+	cfgI := h.Cfg
+	for _, at := range []int{2, 6, 9} {
+		if at >= len(served) {
+			continue
+		}
+		for _, raw := range [][]byte{{0xff}, {0xff, 0xd4}, {0xff, 0xd4, 0x04}, {0xff, 0xd4, 0x04, '#'}, {0xff, 0xd4, 0x04, '#', 'H', 'Y', '0'}, {0xff, 0xd4, 0x04, 'x'}} {
+			inputs = append(inputs, InjInput{At: at, Bytes: raw, Raw: true, Note: fmt.Sprintf("ERR packet of %d bytes", len(raw))})
+		}
+		// (event types of which the streamer reads the header only: XID, the GTID
+		// family, types it does not interpret, types it refuses. The body decoders of
+		// QUERY / ROTATE / FORMAT_DESCRIPTION / TABLE_MAP / rows events index into bodies
+		// that a consistent header announces but that are not there: they panic on the
+		// unchanged tree; C17 claims the gate and the header accessors, see DESIGN 13.14)
+		for _, typ := range []byte{ref.EvXID, ref.EvGTID, ref.EvAnonymousGTID, ref.EvPreviousGTIDs, ref.EvStop, ref.EvIntVar, ref.EvRand, ref.EvUserVar, ref.EvRowsQuery, 0, 255} {
+			for _, size := range []int{19, 20, 21, 22, 23, 27} {
+				b := make([]byte, size)
+				b[0], b[1], b[2], b[3] = 0x01, 0x02, 0x03, 0x5f
+				b[4] = typ
+				b[5] = byte(cfgI.ServerID)
+				b[9] = byte(size)
+				b[13], b[14] = 0x10, 0x27
+				inputs = append(inputs, InjInput{At: at, Bytes: b, Accepted: true, Note: fmt.Sprintf("header-only event of type %d, %d bytes", typ, size)})
+			}
+		}
+	}
 	var n int64
 	r.Parallel(func(shard, nsh int) {
 		for k := shard; k < len(inputs); k += nsh {
@@ -430,9 +472,9 @@ func RunInjection(r *chk.Run) {
 	})
 	// the same inside a transaction of very many events: a malformed packet
 	// half way, at the last rows event, at the commit event and right behind it
-	bigN := 20000
+	bigN := 140000
 	if r.Thorough() {
-		bigN = 70000
+		bigN = 300000
 	}
 	var bigInputs []InjInput
 	{
@@ -1074,6 +1116,9 @@ func checkSchema(in SchemaInput) string {
 			v1.Cols[4].Meta, v1.Cols[5].Meta, v1.Cols[6].Meta = []byte{0}, []byte{0}, []byte{0}
 		}
 	}
+	if in.Variant == "dec" {
+		v1.Cols = append(v1.Cols, ref.ColDecimal("amount", 10, 2), ref.ColDecimal("rate", 20, 6))
+	}
 	if in.Variant == "meta" {
 		// columns whose cell layout lives in the table-map metadata: length-prefix
 		// width, precision and scale, pack length
@@ -1081,6 +1126,11 @@ func checkSchema(in SchemaInput) string {
 	}
 	v2 := &ref.Table{ID: 101, DB: "shop", Name: "gauge", Flags: 1, Cols: append([]ref.Column{}, v1.Cols...)}
 	switch in.Variant {
+	case "dec":
+		// ALTER ... MODIFY amount DECIMAL(10,4): the SAME table id announced again,
+		// the same column types, other precision / scale (same cell size for amount)
+		v2.ID = v1.ID
+		v2.Cols[4], v2.Cols[5] = ref.ColDecimal("amount", 10, 4), ref.ColDecimal("rate", 18, 8)
 	case "meta":
 		// ALTER ... MODIFY widens the columns: a NEW table id, the same names and
 		// the same number of columns, other metadata
@@ -1099,6 +1149,13 @@ func checkSchema(in SchemaInput) string {
 	}
 	row := func(t *ref.Table, k int64) ref.Image {
 		img := rowBase(t, k)
+		if in.Variant == "dec" {
+			p1, s1, p2, s2 := int(t.Cols[4].Meta[0]), int(t.Cols[4].Meta[1]), int(t.Cols[5].Meta[0]), int(t.Cols[5].Meta[1])
+			dec := func(p, s int, digits string) string {
+				return digits[:p-s] + "." + digits[p-s:p]
+			}
+			return append(img, ref.VDecimal(p1, s1, dec(p1, s1, "1234567890")), ref.VDecimal(p2, s2, "-"+dec(p2, s2, "27182818284590452353")))
+		}
 		if in.Variant == "meta" {
 			wide := t.ID == 101
 			vmax, blen, p, sc, cmax, bits := 60, 1, 10, 2, 12, 6
@@ -1223,7 +1280,7 @@ func RunSchemaLookupFails(r *chk.Run) {
 func runSchemaChange(r *chk.Run, lookupFails bool) {
 	var n int64
 	for _, cfg := range Cfgs() {
-		for _, v := range []string{"sign", "name", "fsp", "fsp0", "meta"} {
+		for _, v := range []string{"sign", "name", "fsp", "fsp0", "meta", "dec"} {
 			for kind := 0; kind < 3; kind++ {
 				in := SchemaInput{Variant: v, Cfg: cfg, Kind: kind, LookupFails: lookupFails}
 				n++
@@ -2082,7 +2139,11 @@ func scaleHistory(in ScaleInput) *ref.History {
 		// and above the 256 KiB it keeps), each followed by small packets while
 		// the values are still held
 		t := &ref.Table{ID: 78, DB: "shop", Name: "docs", Flags: 1, Cols: []ref.Column{ref.ColInt(ref.TLong, "id", false), ref.ColVarchar("title", 300), ref.ColBlob("body", 4)}}
-		for i := 0; i < 6; i++ {
+		count := 6
+		if in.N >= 1<<20 {
+			count = 2
+		}
+		for i := 0; i < count; i++ {
 			ts := g.tick()
 			body := bytes.Repeat([]byte{byte('a' + i)}, in.N)
 			evs = append(evs, ref.TM(ts, t), ref.R(ts, ref.RowWrite, t, ref.RowChange{After: ref.Image{ref.VInt(ref.TLong, int64(i), false),
@@ -2104,9 +2165,9 @@ func checkScale(in ScaleInput) string {
 func RunScale(r *chk.Run, only ...string) {
 	cfgA := ref.Cfg{Checksum: ref.ChecksumCRC32, RowsV2: true, TableID6: true, ServerID: 5, ServerVer: "5.7.30-log"}
 	cfgB := ref.Cfg{Checksum: ref.ChecksumOff, RowsV2: false, TableID6: false, ServerID: 5, ServerVer: "5.5.62"}
-	ids, bulk := 40000, 20000
+	ids, bulk := 40000, 140000 // (2^17 + 8928 rows events)
 	if r.Thorough() {
-		ids, bulk = 200000, 70000
+		ids, bulk = 200000, 300000
 	}
 	cases := []ScaleInput{
 		{"table-ids", ids, cfgA}, {"table-ids+1", ids, cfgA}, {"table-ids", 3000, cfgB},
@@ -2115,6 +2176,8 @@ func RunScale(r *chk.Run, only ...string) {
 		{"wide-table", 70, cfgA}, {"wide-table", 130, cfgA}, {"wide-table", 300, cfgA}, {"wide-table", 300, cfgB}, {"wide-table", 1000, cfgA},
 		{"cap-transactions", 3000, cfgA}, {"packet-sizes", 0, cfgA},
 		{"big-events", 6000, cfgA}, {"big-events", 6000, cfgB}, {"big-events", 70000, cfgA}, {"big-events", 300000, cfgA},
+		// events / values of 2^24-1, 2^24 and more bytes: the MySQL packet is split, the driver re-assembles it
+		{"big-events", 1<<24 - 21, cfgA}, {"big-events", 1 << 24, cfgA}, {"big-events", 1<<24 + 5, cfgB},
 	}
 	var n int64
 	var ran []string
@@ -2219,6 +2282,11 @@ func RunChecksumChange(r *chk.Run) {
 				in3 := in
 				in3.Oracle = "resume"
 				hr.add(in3)
+				// the stream is started with an empty file name: the name of the first
+				// file is not to be taken from a ROTATE the format of which is not known yet
+				in5 := in3
+				in5.EmptyStart = true
+				hr.add(in5)
 				for k := 2; k <= 22; k++ {
 					in4 := in
 					in4.CutAt = k + 1
@@ -2528,6 +2596,22 @@ func RunQueryEnvelope(r *chk.Run) {
 	for _, f := range []uint16{0x4, 0x8, 0x10, 0x100, 0x200, 0xc, 0x31c} {
 		envs = append(envs, env{fmt.Sprintf("header flags %#x", f), nil, f})
 	}
+	type env2 struct {
+		name     string
+		ev, rows uint16
+		stamps   []uint32
+	}
+	var envs2 []env2
+	for b := 0; b < 16; b++ {
+		if b == 5 {
+			continue // LOG_EVENT_ARTIFICIAL_F marks events the master makes up: not a flag of logged events
+		}
+		envs2 = append(envs2, env2{name: fmt.Sprintf("header flag bit %d on every event", b), ev: 1 << uint(b)})
+	}
+	for _, f := range []uint16{2, 4, 8, 14, 0x8000} {
+		envs2 = append(envs2, env2{name: fmt.Sprintf("rows flags |= %#x", f), rows: f})
+	}
+	envs2 = append(envs2, env2{name: "timestamps at the edges of the 32-bit field", stamps: []uint32{0, 1, 1<<31 - 1, 1 << 31, 1<<32 - 1, 86399, 86400}})
 	cfgA := ref.Cfg{Checksum: ref.ChecksumCRC32, RowsV2: true, TableID6: true, ServerID: 5, ServerVer: "5.7.30-log"}
 	cfgB := ref.Cfg{Checksum: ref.ChecksumOff, RowsV2: false, TableID6: false, ServerID: 5, ServerVer: "5.5.62"}
 	hists := [][]string{{UDDL, UTxXID, UAutoRows, UDDL, USet, UTxCommit, UDDL}, {USet, UStmtOut, UTxDDL, UDDL, UDDL, UTxRollback, UStmtOut}}
@@ -2543,7 +2627,18 @@ func RunQueryEnvelope(r *chk.Run) {
 			n++
 		}
 	}
+	for _, e := range envs2 {
+		for hi, units := range append(hists, []string{UTxXID, UHeartbeat, UTx2, URotate, UGTID, UTxCommit, UUnknownEv, UAutoRows}) {
+			cfg := cfgA
+			if (n+hi)%2 == 1 {
+				cfg = cfgB
+			}
+			hr.add(HistInput{Units: units, Cfg: cfg, LockStep: true, EvFlags: e.ev, RowFlags: e.rows, Stamps: e.stamps})
+			n++
+		}
+	}
 	hr.finish()
+	r.Set("event_envelope_histories", fmt.Sprintf("%d: 3 histories x (each header flag bit but ARTIFICIAL on every logged event; rows-event flag bits; header timestamps 0, 1, 2^31-1, 2^31, 2^32-1, 86399, 86400)", 3*len(envs2)))
 	r.Set("query_envelope_histories", fmt.Sprintf("%d: 2 histories of statements in every role (BEGIN / COMMIT / DDL / SET / DML text / inside and outside transactions) x %d session settings on every query event (each bit of flags2 and sql_mode, 16 other status variables, 7 header flag values)", n, len(envs)))
 }
 
@@ -2553,18 +2648,24 @@ func RunQueryEnvelope(r *chk.Run) {
 type PartialInput struct {
 	Cfg  ref.Cfg `json:"cfg"`
 	Wipe bool    `json:"wipe"` // the handler completes / overwrites what it got (hx.Wipe); otherwise it keeps everything
+	// DSN: parameters appended to the data source name of the Streamer (what an
+	// application's database/sql DSN carries: loc, parseTime, charset, ...)
+	DSN string `json:"dsn,omitempty"`
 }
 
 func partialHistory(cfg ref.Cfg) *ref.History {
 	t := &ref.Table{ID: 108, DB: "shop", Name: "orders", Flags: 1, Cols: []ref.Column{
 		ref.ColInt(ref.TLong, "id", false), ref.ColVarchar("name", 40), ref.ColInt(ref.TShort, "qty", true),
 		ref.ColFsp(ref.TTimestamp2, "updated_at", 3), ref.ColDecimal("amt", 10, 2), ref.ColDecimal("price", 20, 6),
-		ref.ColFsp(ref.TDateTime2, "created", 6), ref.ColFsp(ref.TTime2, "took", 2), ref.ColJSON("doc", 4), ref.ColBlob("note", 2)}}
+		ref.ColFsp(ref.TDateTime2, "created", 6), ref.ColFsp(ref.TTime2, "took", 2), ref.ColJSON("doc", 4), ref.ColBlob("note", 2),
+		// CHAR(100) utf8mb4: 400 bytes, the length bits folded into the real-type byte of the metadata
+		ref.ColChar("code", 400), ref.ColEnum("state", 1), ref.ColSet("tags", 2)}}
 	A := ref.Cell{Absent: true}
 	full := func(k int64) ref.Image {
 		return ref.Image{ref.VInt(ref.TLong, k, false), ref.VVarchar(40, []byte(fmt.Sprintf("name-%d", k))), ref.VInt(ref.TShort, 40000+k, true),
 			ref.VTimestamp2(3, 1490106309+uint32(k), 765000, time.Local), ref.VDecimal(10, 2, fmt.Sprintf("-1234567%d.91", k%10)), ref.VDecimal(20, 6, fmt.Sprintf("2718281828459%d.452353", k%10)),
-			ref.VDateTimeFsp(6, 2017, 3, 21, 14, 25, 9, 765432), ref.VTime2(2, false, 12, 34, 56, 780000), {Raw: []byte{0, 0, 0, 0}, Text: []byte("'null'")}, ref.VBlob(2, []byte(fmt.Sprintf("note-%d", k)))}
+			ref.VDateTimeFsp(6, 2017, 3, 21, 14, 25, 9, 765432), ref.VTime2(2, false, 12, 34, 56, 780000), {Raw: []byte{0, 0, 0, 0}, Text: []byte("'null'")}, ref.VBlob(2, []byte(fmt.Sprintf("note-%d", k))),
+			ref.VChar(400, []byte(fmt.Sprintf("CODE-%d", k))), ref.VEnum(1, uint16(1+k%3)), ref.VSet(2, uint64(1+k%7))}
 	}
 	pick := func(img ref.Image, cols ...int) ref.Image {
 		out := make(ref.Image, len(img))
@@ -2612,7 +2713,7 @@ func checkPartial(in PartialInput) string {
 	if stop != nil {
 		return "generator error: " + stop.Why
 	}
-	out := Run(h, Opts{Start: start, ServerID: 3, LockStep: true, KeepTx: !in.Wipe, Wipe: in.Wipe})
+	out := Run(h, Opts{Start: start, ServerID: 3, LockStep: true, KeepTx: !in.Wipe, Wipe: in.Wipe, DSNParams: in.DSN})
 	if out.Hung {
 		return "HUNG"
 	}
@@ -2623,6 +2724,9 @@ func checkPartial(in PartialInput) string {
 		return "Stream failed on a well-formed binlog: " + clip(out.StreamErr[0].Error(), 200)
 	}
 	if d := hx.CompareAll(exp, out.Snaps()); d != "" {
+		if in.DSN != "" {
+			d = "(data source name with " + in.DSN + ") " + d
+		}
 		if in.Wipe {
 			return "the handler overwrites everything it is given (as a consumer that completes a partial image in place does): " + d
 		}
@@ -2635,6 +2739,9 @@ func checkPartial(in PartialInput) string {
 		if diff := d.Snap.Diff(hx.Snapshot(d.Tx)); diff != "" {
 			return fmt.Sprintf("delivery %d changed after it was delivered: %s", i, diff)
 		}
+		if why := CheckMarshal(d.Tx, d.Snap); why != "" {
+			return fmt.Sprintf("delivery %d serialised to JSON: %s", i, why)
+		}
 		if why := hx.AliasProbe(d.Tx); why != "" {
 			return fmt.Sprintf("delivery %d: %s", i, why)
 		}
@@ -2645,9 +2752,23 @@ func checkPartial(in PartialInput) string {
 // RunPartialImages is shared by C08 (scale half), C11, C12, C13 and C15.
 func RunPartialImages(r *chk.Run) {
 	var n int64
-	for _, cfg := range Cfgs() {
+	var ins []PartialInput
+	for ci, cfg := range Cfgs() {
+		cfg.PadOnes = ci%2 == 1 // the unused bits of the bitmaps' last bytes set, as a server that starts from all-ones leaves them
 		for _, wipe := range []bool{false, true} {
-			in := PartialInput{Cfg: cfg, Wipe: wipe}
+			ins = append(ins, PartialInput{Cfg: cfg, Wipe: wipe})
+		}
+	}
+	// what an application's DSN carries must not change what is delivered
+	for _, dsn := range []string{"?loc=Asia%2FTokyo", "?parseTime=true&loc=America%2FNew_York&charset=utf8mb4", "?loc=UTC&timeout=5s&readTimeout=30s", "?collation=latin1_swedish_ci&columnsWithAlias=true&interpolateParams=true"} {
+		ins = append(ins, PartialInput{Cfg: Cfgs()[3], DSN: dsn}, PartialInput{Cfg: Cfgs()[12], DSN: dsn})
+	}
+	// ... also for a Streamer with a plain DSN that is created after one with parameters
+	ins = append(ins, PartialInput{Cfg: Cfgs()[3]})
+	for _, in := range ins {
+		{
+			in := in
+			cfg, wipe := in.Cfg, in.Wipe
 			n++
 			if why := checkPartial(in); why != "" && why != "HUNG" {
 				r.Report(chk.Violation{Key: "partial-images", What: fmt.Sprintf("cfg=%s wipe=%v: %s", CfgName(cfg), wipe, why), Kind: "partial", Replay: in, Recheck: func() string { return checkPartial(in) }})
@@ -2668,6 +2789,77 @@ func ReplayPartial(input json.RawMessage) (bool, string) {
 	why := checkPartial(in)
 	if why == "" {
 		return false, "every image is delivered as logged"
+	}
+	return true, why
+}
+
+// ---- a mapper that returns tables under other names ---------------------------------------
+
+func checkRename(cfg ref.Cfg) string {
+	g := &Gen{Cfg: cfg}
+	h := g.Build([]string{UTxXID, UTx2, UAutoRows, UDDL, UTxCommit})
+	start := ref.Position{File: h.Files[0].Name, Pos: 4}
+	served, _ := h.Serve(start.File, 4)
+	exp, stop := ref.Expect(served, start)
+	if stop != nil {
+		return "generator error: " + stop.Why
+	}
+	ren := map[string][2]string{"shop.item": {"logical", "items"}, "shop.audit": {"SHOP", "Audit_All"}}
+	for i := range exp {
+		for j := range exp[i].Events {
+			e := &exp[i].Events[j]
+			if nn, ok := ren[e.DB+"."+e.Table]; ok && e.IsRows {
+				e.DB, e.Table = nn[0], nn[1]
+			}
+		}
+	}
+	mapper := hx.NewMapper(TablesOf(h)...)
+	mapper.Rename = ren
+	out := Run(h, Opts{Start: start, ServerID: 3, LockStep: true, KeepTx: true, Mapper: mapper})
+	if out.Hung {
+		return "HUNG"
+	}
+	if out.StreamPanic[0] != "" {
+		return "panic in Stream: " + firstLine(out.StreamPanic[0])
+	}
+	if out.StreamErr[0] != nil {
+		return "Stream failed on a well-formed binlog: " + clip(out.StreamErr[0].Error(), 200)
+	}
+	if d := hx.CompareAll(exp, out.Snaps()); d != "" {
+		return "the mapper returns its tables under other names (shards folded into a logical table): " + d
+	}
+	for i, d := range out.Deliveries {
+		if why := CheckMarshal(d.Tx, d.Snap); why != "" {
+			return fmt.Sprintf("delivery %d serialised to JSON: %s", i, why)
+		}
+	}
+	return ""
+}
+
+// RunRename is shared by C15 and C20.
+func RunRename(r *chk.Run) {
+	var n int64
+	for _, cfg := range Cfgs() {
+		cfg := cfg
+		n++
+		if why := checkRename(cfg); why != "" && why != "HUNG" {
+			r.Report(chk.Violation{Key: "mapper-rename", What: fmt.Sprintf("cfg=%s: %s", CfgName(cfg), why), Kind: "rename", Replay: cfg, Recheck: func() string { return checkRename(cfg) }})
+		}
+	}
+	r.Eval(n)
+	r.DistinctN(n)
+	r.Set("mapper_rename_executions", n)
+}
+
+// ReplayRename replays a rename execution.
+func ReplayRename(input json.RawMessage) (bool, string) {
+	var cfg ref.Cfg
+	if err := json.Unmarshal(input, &cfg); err != nil {
+		return false, err.Error()
+	}
+	why := checkRename(cfg)
+	if why == "" {
+		return false, "events carry the names of the mapper's tables"
 	}
 	return true, why
 }
